@@ -22,7 +22,7 @@ def check(chk, sc, out, history):
     tag = "smooth:%s:%s" % (sc["id"], history)
     desc = "model %s data %s variances %s / %s (%s)" % (sc["id"], _plain(sc["data"]), _plain(sc["sd"]), _plain(sc["sdw"]), history)
     try:
-        fresh = history == "fresh"
+        fresh = history in ("fresh", "measurement equations written as a block")
         if history == "simulate-first":
             # the same solved model is first used for an anticipated-shock simulation, then for filtering
             m0 = model(out["src"], True)
@@ -203,11 +203,19 @@ def run(chk):
     chk.replayed += nc
     chk.notes["clause_only_runs"] = nc
     scen = scenarios(chk)
-    n = 0
+    n = nblock = 0
     for sc, out in scen:
         for history in ("fresh", "simulate-first", "shared"):
             check(chk, sc, out, history)
             n += 1
+        if len(out["mvars"]) >= 2:
+            # the same model with its measurement equations written as a simultaneous block (same meaning, non-symmetric Jacobian)
+            check(chk, sc, dict(out, src=out["srcb"]), "measurement equations written as a block")
+            n += 1
+            nblock += 1
+    if not nblock:
+        raise MachineryError("KalmanMC: no scenario with a measurement block")
+    chk.notes["runs_with_measurement_equations_as_block"] = nblock
     sc, out = scen[3]
     chk.sample({"scenario": _plain(sc), "spec_smoothed_means": _plain([m_["mean"] for m_ in out["smooth"]])})
     chk.replayed += n
